@@ -23,6 +23,8 @@ var AllKnobs = []string{
 	"lists", "nonnull", "enums",
 	"args", "inputargs", "lookups",
 	"requires", "provides", "shareable",
+	"partialinterfaces", // a second subgraph declares an interface with its id field only and returns it
+	"unresolvable",      // reference-only entity stubs are declared @key(resolvable: false)
 	// universe
 	"nulls", "errors",
 	// operations
@@ -105,8 +107,9 @@ type gType struct {
 }
 
 type gAbstract struct {
-	def  *TypeDef
-	home int
+	def     *TypeDef
+	home    int
+	partial []int // subgraphs that declare the interface with its id field only
 }
 
 type cfgGen struct {
@@ -381,7 +384,11 @@ func GenConfig(r *common.Rand, k Knobs) *Config {
 			for _, t := range impls {
 				t.def.Implements = append(t.def.Implements, idef.Name)
 			}
-			g.abs = append(g.abs, &gAbstract{def: idef, home: h})
+			ga := &gAbstract{def: idef, home: h}
+			if k["partialinterfaces"] && idef.Field("id") != nil && g.nSub > 1 && r.Chance(1, 2) {
+				ga.partial = []int{(h + 1 + r.Pick(g.nSub-1)) % g.nSub}
+			}
+			g.abs = append(g.abs, ga)
 			super.Types = append(super.Types, idef)
 		}
 	}
@@ -475,7 +482,7 @@ func GenConfig(r *common.Rand, k Knobs) *Config {
 		}
 		if !fromValue {
 			for _, a := range g.abs {
-				if a.home == s {
+				if a.home == s || hasInt(a.partial, s) {
 					names = append(names, a.def.Name, a.def.Name)
 				}
 			}
